@@ -922,9 +922,13 @@ class Dosini(object):
             packages[package] = {
                 'stages': stages,
                 'data-in': data_in,
-                'description': description,
-                'type': file_type,
             }
+
+            # VV: description and type are optional, do not invent a `None` value for them
+            if description is not None:
+                packages[package]['description'] = description
+            if file_type is not None:
+                packages[package]['type'] = file_type
 
         if packages:
             if FlowIR.FieldOutput not in flowir:
